@@ -22,7 +22,7 @@ import (
 func init() {
 	reg(&core.RuleInfo{Name: "SER-CLOSED", Props: []string{"C01"}, Engine: "PROV", Floor: 2, Confirmed: 2,
 		Doc: "every byte appended to the hashed buffer comes from a recognised source", Run: runSerClosed})
-	reg(&core.RuleInfo{Name: "ONE-CS", Props: []string{"C15"}, Engine: "LOCK", Floor: 3, Confirmed: 9,
+	reg(&core.RuleInfo{Name: "ONE-CS", Props: []string{"C15", "C03", "C05", "C07", "C19"}, Engine: "LOCK", Floor: 3, Confirmed: 9,
 		Doc: "each exported operation of a guarded store is a single critical section", Run: runOneCS})
 	reg(&core.RuleInfo{Name: "RD-PURE", Props: []string{"C03", "C15", "C07", "C16"}, Engine: "CG", Floor: 3, Confirmed: 8,
 		Doc: "nothing reachable from a read-locked region mutates shared containers (alias-aware)", Run: runRdPure})
